@@ -20,7 +20,7 @@ NSHARDS = {"quick": 4, "thorough": 16}
 CLAUSES = {   # minimum evaluations per run (a quick run reaches three to seven times these numbers)
     "C12.genetic": 10000, "C12.genic": 1000,
     "C12.structure.symmetry": 500, "C12.structure.zero": 4000, "C12.structure.reorder": 400, "C12.structure.labels": 400,
-    "C12.routes": 500, "C12.chunk": 200, "C12.uc": 600, "C12.uc.shape": 80,
+    "C12.routes": 500, "C12.chunk": 200, "C12.uc": 600, "C12.uc.shape": 80, "C12.history": 1500,
 }
 RULE = ("seeded class-based cases: 2-5 parents (inbred for two/three/four-way; arbitrary phased, fully heterozygous, "
         "inbred, duplicated and phase-swapped genotypes for dihybrid), 1-7 loci for full enumeration (8-14 loci with the "
@@ -32,7 +32,10 @@ RULE = ("seeded class-based cases: 2-5 parents (inbred for two/three/four-way; a
         "position groups interleaved), 1-3 traits with gaussian / small-integer / sparse / "
         "cancelling / mixed-magnitude effects, models with empty and with 1-3 rows of non-marker effects (u_misc), nself in {0..4, inf}, mem in {None,1,2,3,4,5,L,1024,argument omitted}, every class of "
         "pybrops.model.vmat and pybrops.model.pcvmat through from_algmod, from_gmod and the factories, all parent index "
-        "tuples (sampled per equality pattern when 4^L states make a tuple expensive).  A case is non-trivial when the "
+        "tuples (sampled per equality pattern when 4^L states make a tuple expensive).  60% of the built matrices are then "
+        "used as long-lived objects: 1-3 of the library's own operations (reorder/sort/group/select/delete/remove/lexsort+"
+        "reorder/copy/deepcopy/ungroup on the taxa axes, generic with positive and negative axis numbers and axis-specific; "
+        "reorder/select/delete/remove/sort on the trait axes) are applied and every followed entry is re-judged.  A case is non-trivial when the "
         "parents are not all identical and some effect is non-zero; distinct = digest of genotypes, effects, layout, "
         "positions, scheme, class, route, nself and mem.")
 ASSUME = [
@@ -46,6 +49,9 @@ ASSUME = [
     "The oracle enumerates the loci in map order (crossovers happen between loci adjacent on the genetic map), the library "
     "gets the stored order",
     "u_misc (non-marker random effects of the model) is not part of the additive marker effects",
+    "history clause: after an operation the parents at an index tuple are the ones named by the taxa labels there (unique "
+    "labels); when the matrix is unlabelled or the operation returned no labels (label carrying is C03's subject) the "
+    "operation's index semantics are used; an operation that raises must leave the entries unchanged",
     "dihybrid entries [a, a] of a heterozygous individual are asserted by no clause (the statement's 'equals the "
     "enumeration' and 'zero for identical parents' contradict each other there); they are only counted",
     "trait labels are only observed (counter), the statement does not mention them; taxa labels are part of equivariance",
@@ -485,6 +491,7 @@ def case_mat(ctx, c):
     rel = "entry == exact gamete enumeration" if genetic else "entry == exact gamete enumeration with all loci unlinked"
     ocls = order_class(chrgrp, genpos)
     ctx.sumnote("mat cases with non-monotone genetic positions" if ocls else "mat cases with monotone genetic positions")
+    expected = {}
     for idx in tuples:
         tc = tclass(scheme, idx, homoz)
         if tc == "female == male, heterozygous parent":
@@ -493,6 +500,8 @@ def case_mat(ctx, c):
         exp = expected_entry(kind, cov_of(idx))
         got = M[tuple(idx)]
         ok = close(got, exp, tol)
+        if ok:
+            expected[tuple(idx)] = exp          # the history clause follows only entries that were right when built
         ctx.sumnote("entries judged against the enumeration: " + type(obj).__name__)
         ctx.maxnote("worst |reported - enumerated| / tolerance (passing entries)", slack(got, exp, tol) if ok else 0.0)
         ctx.check(clause, ok, site, rel, tc + (ocls if genetic else ""),
@@ -500,6 +509,8 @@ def case_mat(ctx, c):
                                                                       numpy.asarray(got).ravel()[:4].tolist(), numpy.ravel(exp)[:4].tolist()),
                   witness=dict(summary, index=list(idx), reported=numpy.asarray(got), enumerated=exp), coords=coords)
     structure(ctx, g, scheme, kind, route, obj, M, pg, mod, h0, h1, homoz, tol, summary, coords, nmating, nprogeny, nself, H, mem)
+    if g.random() < 0.6:
+        history(ctx, g, scheme, kind, obj, expected, tol, pg, summary, coords)
 
 
 def sym_axes(scheme):
@@ -574,6 +585,184 @@ def structure(ctx, g, scheme, kind, route, obj, M, pg, mod, h0, h1, homoz, tol, 
         ctx.check("C12.structure.reorder", not bad.any(), site, "matrix of reordered taxa == reordered matrix", "any",
                   witness=dict(summary, perm=perm), coords=coords)
         ctx.check("C12.structure.reorder", lab2, site, "labels follow the reordering", "any", witness=dict(summary, perm=perm), coords=coords)
+
+
+# ---------------------------------------------------------------- the matrix as a long-lived labelled object
+TAXA_OPS = ["reorder_taxa", "reorder", "sort_taxa", "sort", "group_taxa", "group", "select_taxa", "select", "delete_taxa", "delete",
+            "remove_taxa", "remove", "lexsort_taxa+reorder_taxa", "copy", "deepcopy", "ungroup_taxa"]
+TRAIT_OPS = ["reorder_trait", "select_trait", "delete_trait", "remove_trait", "sort_trait", "reorder@trait", "select@trait"]
+
+
+def defining_class(obj, name):
+    for k in type(obj).__mro__:
+        if name in k.__dict__:
+            return k.__name__
+    return type(obj).__name__
+
+
+def history(ctx, g, scheme, kind, obj, expected, tol, pg, summary, coords):
+    """Apply the library's own taxa / trait operations to the matrix it returned; after every operation each entry must
+    still equal the enumeration for the parents (and traits) NAMED by the labels at its index tuple (for unlabelled
+    matrices: for the parents the index-based operation semantics put there)."""
+    import copy as _copy
+    k = NTUP[scheme]
+    labelled = pg.taxa is not None
+    name2ix = {nm: i for i, nm in enumerate(pg.taxa.tolist())} if labelled else None
+    try:
+        cur = _copy.deepcopy(obj)
+    except Exception as e:
+        ctx.raised("deepcopy of " + type(obj).__name__, e)
+        return
+    ntrait0 = numpy.asarray(obj.mat).shape[k]
+    trait0 = None if getattr(obj, "trait", None) is None else list(obj.trait.tolist())
+    taxa_map = list(range(numpy.asarray(obj.mat).shape[0]))   # model: original parent at every position
+    trait_map = list(range(ntrait0))
+    ops = []
+    for step in range(int(g.integers(1, 4))):
+        n = len(taxa_map); t = len(trait_map)
+        pool = TAXA_OPS * 2 + TRAIT_OPS
+        op = pool[int(g.integers(len(pool)))]
+        ax_taxa = int(g.integers(0, k))                        # generic methods: any of the taxa axes names the taxa
+        ax_trait = k + int(g.integers(0, cur.mat.ndim - k))
+        if g.random() < 0.3:
+            ax_taxa -= cur.mat.ndim                            # negative axis numbers are valid too
+        new_taxa, new_trait, res = taxa_map, trait_map, None
+        label_dep = False
+        try:
+            if op in ("reorder_taxa", "reorder", "lexsort_taxa+reorder_taxa"):
+                perm = g.permutation(n)
+                if op == "reorder_taxa":
+                    cur.reorder_taxa(perm)
+                elif op == "reorder":
+                    cur.reorder(perm, axis=ax_taxa)
+                else:
+                    if not labelled:
+                        continue
+                    perm = cur.lexsort_taxa(); label_dep = True
+                    cur.reorder_taxa(perm)
+                new_taxa = [taxa_map[int(i)] for i in perm]
+            elif op in ("sort_taxa", "sort", "group_taxa", "group"):
+                if not labelled:
+                    continue
+                label_dep = True
+                {"sort_taxa": lambda: cur.sort_taxa(), "sort": lambda: cur.sort(axis=ax_taxa),
+                 "group_taxa": lambda: cur.group_taxa(), "group": lambda: cur.group(axis=ax_taxa)}[op]()
+                new_taxa = None                                 # order chosen by the library: read from the labels
+            elif op in ("select_taxa", "select"):
+                sel = g.integers(0, n, int(g.integers(1, n + 2)))
+                res = cur.select_taxa(sel) if op == "select_taxa" else cur.select(sel, axis=ax_taxa)
+                new_taxa = [taxa_map[int(i)] for i in sel]
+            elif op in ("delete_taxa", "delete", "remove_taxa", "remove"):
+                if n < 2:
+                    continue
+                form = int(g.integers(0, 3))
+                drop = sorted(set(int(i) for i in g.integers(0, n, int(g.integers(1, n)))))
+                arg = drop[0] if (form == 0 or len(drop) == 1 and form == 1) else (slice(drop[0], drop[0] + 1) if form == 1 else drop)
+                if not isinstance(arg, list):
+                    drop = [drop[0]]
+                if op == "delete_taxa":
+                    res = cur.delete_taxa(arg)
+                elif op == "delete":
+                    res = cur.delete(arg, axis=ax_taxa)
+                elif op == "remove_taxa":
+                    cur.remove_taxa(arg)
+                else:
+                    cur.remove(arg, axis=ax_taxa)
+                new_taxa = [v for i, v in enumerate(taxa_map) if i not in drop]
+            elif op in ("copy", "deepcopy"):
+                res = cur.copy() if op == "copy" else cur.deepcopy()
+            elif op == "ungroup_taxa":
+                cur.ungroup_taxa()
+            elif op in ("reorder_trait", "reorder@trait"):
+                perm = g.permutation(t)
+                cur.reorder_trait(perm) if op == "reorder_trait" else cur.reorder(perm, axis=ax_trait)
+                new_trait = [trait_map[int(i)] for i in perm]
+            elif op in ("select_trait", "select@trait"):
+                sel = g.integers(0, t, int(g.integers(1, t + 2)))
+                res = cur.select_trait(sel) if op == "select_trait" else cur.select(sel, axis=ax_trait)
+                new_trait = [trait_map[int(i)] for i in sel]
+            elif op in ("delete_trait", "remove_trait"):
+                if t < 2:
+                    continue
+                d = int(g.integers(0, t))
+                if op == "delete_trait":
+                    res = cur.delete_trait(d)
+                else:
+                    cur.remove_trait(d)
+                new_trait = [v for i, v in enumerate(trait_map) if i != d]
+            elif op == "sort_trait":
+                if trait0 is None:
+                    continue
+                label_dep = True
+                cur.sort_trait()
+                new_trait = None
+        except Exception as e:
+            ctx.raised("%s.%s on %d taxa axes" % (defining_class(cur, op.split("@")[0].split("+")[-1]), op, k), e)
+            new_taxa, new_trait, res = taxa_map, trait_map, None   # a failed operation must leave the object as it was
+            op = op + " (raised)"
+        if res is not None:
+            cur = res
+        ops.append(op)
+        site = "%s.%s" % (defining_class(cur, op.split(" ")[0].split("@")[0].split("+")[-1]), op.split(" ")[0].split("@")[0])
+        icls = "two taxa axes" if k == 2 else "more than two taxa axes"
+        M = numpy.asarray(cur.mat)
+        w = dict(summary, operations=list(ops))
+        # who sits where now: the labels say it (labelled), the operation semantics say it (unlabelled)
+        if labelled and cur.taxa is None:
+            # carrying labels through operations is property C03's subject; C12 only asks that entries match whoever is named
+            ctx.sumnote("history: operation returned a matrix without taxa labels (not judged here): " + site)
+            labelled = False
+            if new_taxa is None:
+                return
+        if labelled:
+            lab = cur.taxa.tolist()
+            if not ctx.check("C12.history", all(x in name2ix for x in lab) and all(M.shape[a] == len(lab) for a in range(k)),
+                             site, "taxa labels known and as many as every taxa axis is long", icls, witness=w, coords=coords):
+                return
+            where = [name2ix[x] for x in lab]
+            grp_ok = cur.taxa_grp is None or numpy.array_equal(cur.taxa_grp, pg.taxa_grp[where])
+            ctx.check("C12.history", grp_ok, site, "taxa_grp belongs to the parent named at the same position", icls, witness=w, coords=coords)
+            if new_taxa is not None and not label_dep:
+                ctx.check("C12.history", where == list(new_taxa), site, "labels moved as the operation's index semantics say", icls, witness=w, coords=coords)
+        else:
+            where = list(new_taxa)
+            if not ctx.check("C12.history", all(M.shape[a] == len(where) for a in range(k)), site, "every taxa axis has the length the operation implies",
+                             icls, witness=w, coords=coords):
+                return
+        tlab = getattr(cur, "trait", None)
+        if trait0 is not None and tlab is not None and len(set(trait0)) == len(trait0):
+            twhere = [trait0.index(x) for x in tlab.tolist()] if all(x in trait0 for x in tlab.tolist()) else None
+        else:
+            twhere = None if new_trait is None else list(new_trait)
+        if twhere is None:
+            ctx.sumnote("history: trait order not recoverable after an operation (labels dropped, not judged here): " + site)
+            return
+        if not ctx.check("C12.history", all(M.shape[a] == len(twhere) for a in range(k, M.ndim)), site,
+                         "every trait axis has the length the trait labels / the operation imply", icls, witness=w, coords=coords):
+            return
+        bad = None
+        nchk = 0
+        for pos in itertools.product(range(len(where)), repeat=k):
+            exp = expected.get(tuple(where[i] for i in pos))
+            if exp is None:
+                continue
+            e2 = exp[twhere] if kind.startswith("vmat") else exp[numpy.ix_(twhere, twhere)]
+            t2 = numpy.broadcast_to(tol, exp.shape)
+            t2 = t2[twhere] if kind.startswith("vmat") else t2[numpy.ix_(twhere, twhere)]
+            nchk += 1
+            if not close(M[pos], e2, t2):
+                bad = (pos, M[pos], e2)
+                break
+        ctx.sumnote("history: entries re-judged after an operation", nchk)
+        ctx.check("C12.history", bad is None, site,
+                  "entry == enumeration for the parents and traits now at that index (named by the labels, else placed there by the operation)",
+                  icls, what=None if bad is None else "%s after %s: entry %s = %s, enumeration for the named parents %s" % (
+                      type(cur).__name__, ops, list(bad[0]), numpy.ravel(bad[1])[:4].tolist(), numpy.ravel(bad[2])[:4].tolist()),
+                  witness=w, coords=coords)
+        if bad is not None:
+            return                                             # later operations would inherit the damage: attribute it once
+        taxa_map = where
+        trait_map = twhere
 
 
 # ---------------------------------------------------------------- family 2: chunking parameter
